@@ -565,6 +565,15 @@ def _isel(a, dim, index):
     return np.take(a, [int(i.args[0]) for i in index.reshape(-1)], axis=dim)
 
 
+CONCRETIZED = []   # nodes whose value was read out as a Python number (float(x), x.item()): symbolic information lost there
+
+
+@handler('aten._local_scalar_dense.default')
+def _item(a):
+    CONCRETIZED.append(a.reshape(-1)[0])
+    return None
+
+
 @handler('aten.sym_size.int')
 def _symsize(a, d):
     return a.shape[d]
